@@ -1189,7 +1189,8 @@ void simplecpp::TokenList::constFoldMulDivRem(Token *tok)
 
         long long result;
         if (tok->op == '*') {
-            result = (stringToLL(tok->previous->str()) * stringToLL(tok->next->str()));
+            // signed overflow is undefined behaviour: multiply in the unsigned type (wrap around)
+            result = static_cast<long long>(static_cast<unsigned long long>(stringToLL(tok->previous->str())) * static_cast<unsigned long long>(stringToLL(tok->next->str())));
         }
         else if (tok->op == '/' || tok->op == '%') {
             const long long rhs = stringToLL(tok->next->str());
@@ -1222,10 +1223,11 @@ void simplecpp::TokenList::constFoldAddSub(Token *tok)
             continue;
 
         long long result;
+        // signed overflow is undefined behaviour: add and subtract in the unsigned type (wrap around)
         if (tok->op == '+')
-            result = stringToLL(tok->previous->str()) + stringToLL(tok->next->str());
+            result = static_cast<long long>(static_cast<unsigned long long>(stringToLL(tok->previous->str())) + static_cast<unsigned long long>(stringToLL(tok->next->str())));
         else if (tok->op == '-')
-            result = stringToLL(tok->previous->str()) - stringToLL(tok->next->str());
+            result = static_cast<long long>(static_cast<unsigned long long>(stringToLL(tok->previous->str())) - static_cast<unsigned long long>(stringToLL(tok->next->str())));
         else
             continue;
 
@@ -1245,11 +1247,16 @@ void simplecpp::TokenList::constFoldShift(Token *tok)
             continue;
 
         long long result;
-        if (tok->str() == "<<")
-            result = stringToLL(tok->previous->str()) << stringToLL(tok->next->str());
-        else if (tok->str() == ">>")
-            result = stringToLL(tok->previous->str()) >> stringToLL(tok->next->str());
-        else
+        if (tok->str() == "<<" || tok->str() == ">>") {
+            const long long rhs = stringToLL(tok->next->str());
+            // a negative or too large shift count is undefined behaviour
+            if (rhs < 0 || rhs >= 64)
+                throw std::overflow_error("shift count out of range");
+            if (tok->str() == "<<")
+                result = static_cast<long long>(static_cast<unsigned long long>(stringToLL(tok->previous->str())) << rhs);
+            else
+                result = stringToLL(tok->previous->str()) >> rhs;
+        } else
             continue;
 
         tok = tok->previous;
